@@ -11,6 +11,7 @@ mod pkce;
 mod urlt;
 #[macro_use]
 mod http;
+mod dbg;
 
 use std::io::{BufRead, Write};
 use std::panic::{catch_unwind, AssertUnwindSafe};
@@ -36,6 +37,8 @@ fn run_line(line: &str) -> String {
         "URLP" => urlt::urlp(&ws[1..]),
         "HTTP" => http::run(&ws[1..]),
         "DECODE" => http::decode(&ws[1..]),
+        "DBG" => dbg::run(&ws[1..]),
+        "DBGPH" => dbg::dbgph(&ws[1..]),
         _ => proto::BAD.into(),
     }
 }
